@@ -52,12 +52,12 @@ func (d dval) plus(k, u int) dval {
 }
 
 type depthInterp struct {
-	info   *types.Info
-	di     *defIndex
-	upnObj types.Object // the depth variable of the enclosing specialisation (may be nil)
+	info    *types.Info
+	di      *defIndex
+	upnObj  types.Object // the depth variable of the enclosing specialisation (may be nil)
 	upnRoot types.Object
-	state  map[types.Object]dval
-	visit  func(access ast.Expr, E ast.Expr, idx ast.Expr, ints bool, d dval)
+	state   map[types.Object]dval
+	visit   func(access ast.Expr, E ast.Expr, idx ast.Expr, ints bool, d dval)
 }
 
 func (p *depthInterp) isUpn(e ast.Expr) bool {
@@ -270,8 +270,8 @@ func (p *depthInterp) stmt(s ast.Stmt) {
 				vals := make([]ast.Expr, len(x.Rhs))
 				copy(vals, x.Rhs)
 				type upd struct {
-					l ast.Expr
-					v dval
+					l  ast.Expr
+					v  dval
 					ok bool
 				}
 				var ups []upd
@@ -496,7 +496,7 @@ func chainEndsInField(info *types.Info, di *defIndex, e ast.Expr, depth int) str
 		if o == nil {
 			return ""
 		}
-		if d := di.single(o); d != nil {
+		if d := di.singleNonConst(o); d != nil {
 			return chainEndsInField(info, di, d, depth+1)
 		}
 		return "param:" + o.Name()
